@@ -44,8 +44,29 @@ fn answers(g: &DebruijnGraph<Kmer4, u8>) -> Vec<u32> {
             out.extend(e.iter().map(|x| enc(Some(*x))));
         }
     }
-    for x in 0..256u64 {
-        let k = Kmer4::from_u64(x);
+    // link lookups: every terminal k-mer, its reverse complement, all their one-base neighbours (present and absent
+    // k-mers), plus a fixed spread of 16 further k-mers.  (All 256 k-mers would cost ~10^4 tracked atomic loads per
+    // execution; the full 4^K sweep is done natively by the E1 half.)
+    let mut qs: Vec<Kmer4> = Vec::new();
+    for n in g.iter_nodes() {
+        let s = n.sequence();
+        for t in [s.first_kmer::<Kmer4>(), s.last_kmer::<Kmer4>()] {
+            for k in [t, t.rc()] {
+                qs.push(k);
+                for b in 0..4u8 {
+                    qs.push(k.extend_left(b));
+                    qs.push(k.extend_right(b));
+                }
+            }
+        }
+    }
+    for x in 0..16u64 {
+        qs.push(Kmer4::from_u64(x * 17));
+    }
+    qs.sort();
+    qs.dedup();
+    for k in qs {
+        out.push(k.to_u64() as u32);
         out.push(enc(g.find_link(k, Dir::Left)));
         out.push(enc(g.find_link(k, Dir::Right)));
     }
@@ -146,7 +167,7 @@ fn main() {
     let tier = args.get(1).map(|s| s.as_str()).unwrap_or("quick");
     let quick = tier == "quick";
     // (workers, preemption bound, cap seconds)
-    let configs: Vec<(usize, Option<usize>, u64)> = if quick { vec![(1, Some(4), 45), (2, Some(1), 45)] } else { vec![(1, None, 900), (2, Some(3), 900), (3, Some(2), 900)] };
+    let configs: Vec<(usize, Option<usize>, u64)> = if quick { vec![(1, Some(4), 300), (2, Some(1), 300)] } else { vec![(1, None, 900), (2, Some(3), 900), (3, Some(2), 900)] };
     let verif = std::env::var("VERIF_DIR").unwrap_or_else(|_| "/verif".into());
     let me = std::env::current_exe().unwrap();
     let t0 = Instant::now();
@@ -180,7 +201,22 @@ fn main() {
                         cmd.arg(n);
                     }
                     cmd.env("VC_LOOM_CHECKPOINT", &ck);
-                    (cmd.output().expect("spawn child"), ck)
+                    cmd.stdout(std::process::Stdio::piped()).stderr(std::process::Stdio::piped());
+                    let mut child = cmd.spawn().expect("spawn child");
+                    // a schedule that hangs inside one execution (e.g. non-intercepted blocking primitives in the code under
+                    // test) is not seen by loom's own duration cap: kill the child after cap + 60 s
+                    let deadline = Instant::now() + Duration::from_secs(cap + 60);
+                    loop {
+                        match child.try_wait() {
+                            Ok(Some(_)) => break,
+                            Ok(None) if Instant::now() > deadline => {
+                                let _ = child.kill();
+                                break;
+                            }
+                            _ => std::thread::sleep(Duration::from_millis(50)),
+                        }
+                    }
+                    (child.wait_with_output().expect("child output"), ck)
                 })
             })
             .collect();
@@ -222,7 +258,7 @@ fn main() {
     let multi = runs.iter().filter(|r| r["executions"].as_u64().unwrap_or(0) > 1).count();
     {
         let cov = ev["coverage"].as_object_mut().unwrap();
-        cov.insert("loom".into(), json!({"engine": "E3 loom 0.7 (DPOR, preemption-bounded) on the real BaseGraph::finish; boomphf compiled against loom atomics, rayon regions on a persistent pool of loom threads", "runs": runs, "executions_total": execs, "parallel_regions_total": regions, "scenarios_with_more_than_one_schedule": multi, "completed_bounds": if quick { "2 threads: preemption bound 4; 3 threads: bound 1" } else { "2 threads: unbounded (complete); 3 threads: bound 3; 4 threads: bound 2" }, "per_execution_oracle": "all 512 find_link answers, every node's sequence/extensions/edge lists and order == finish_serial(); identical across all executions"}));
+        cov.insert("loom".into(), json!({"engine": "E3 loom 0.7 (DPOR, preemption-bounded) on the real BaseGraph::finish; boomphf compiled against loom atomics, rayon regions on a persistent pool of loom threads", "runs": runs, "executions_total": execs, "parallel_regions_total": regions, "scenarios_with_more_than_one_schedule": multi, "completed_bounds": if quick { "2 threads: preemption bound 4; 3 threads: bound 1" } else { "2 threads: unbounded (complete); 3 threads: bound 3; 4 threads: bound 2" }, "per_execution_oracle": "find_link (both directions) for every terminal k-mer, its reverse complement, all their one-base neighbours and 16 further k-mers; every node's sequence/extensions/edge lists and order; all == finish_serial() and identical across all executions"}));
         let st = cov.get("states").and_then(|x| x.as_u64()).unwrap_or(0) + execs;
         let tr = cov.get("transitions").and_then(|x| x.as_u64()).unwrap_or(0) + regions;
         cov.insert("states".into(), json!(st.max(1)));
